@@ -107,6 +107,14 @@ def mapsubq(n: int):
     return ilist.map(leafq, ilist.range(n))
 
 @move
+def viaq(i: int):
+    return leafq(i) + 1
+
+@move
+def mapviaq(n: int):
+    return ilist.map(viaq, ilist.range(n))
+
+@move
 def sharedmoveq(n: int):
     d = schedule.device_fn(tkq, ilist.IList([0, 1, 2]), ilist.IList([0, 1]))
     d(n)
@@ -140,6 +148,8 @@ LIB_CALL = '''    dq = schedule.device_fn(tkq, ilist.IList([0, 1, 2]), ilist.ILi
     dq(1)
     mq = mapsubq(2)
     sq = sharedmoveq(2)
+    vq = ilist.map(viaq, ilist.range(2))
+    wq = mapviaq(2)
     move_by_waypoints(ilist.IList([spec.get_static_trap(zone_id="A"), grid.shift(spec.get_static_trap(zone_id="A"), 1.0, 2.0)]), True, True)
 '''
 
